@@ -427,8 +427,8 @@ def _t_int(value=0, *a, **k):
     truncation, left as an uninterpreted term so that no proof can go through it."""
     import builtins
     if isinstance(value, sp.Basic) and value.free_symbols:
-        if value.is_integer:
-            return value
+        if value.is_integer or isinstance(value, (sp.ceiling, sp.floor)):
+            return value  # int() of a complex ceiling raises in the real code: a refusal, not a returned value
         return sp.Function("vf_int_truncation")(value)
     return builtins.int(value, *a, **k)
 
@@ -1148,15 +1148,15 @@ def _numeric_pairs(c: Contract, assoc, kwargs, result):
     return pairs, n_by_base
 
 
-def replay_script(c: Contract, law_attr: str, args: dict) -> str:
+def replay_script(c: Contract, law_attr: str, args: dict, fn: str = "replay_point") -> str:
     lines = [
         "# replay: real module, real decorated function, real Quantities; asserts the published law on the outcome",
         "import sys",
         f"sys.path.insert(0, {str(VERIF)!r})",
         "import os",
         "sys.path.insert(0, os.environ.get('VERIF_REPO', '/repo'))",
-        "from vf.calc import replay_point",
-        f"replay_point({c.modname!r}, {c.fname!r}, {law_attr!r}, {args!r}, op={c.op!r})",
+        f"from vf.calc import {fn}",
+        f"{fn}({c.modname!r}, {c.fname!r}, {law_attr!r}, {args!r}, op={c.op!r})",
     ]
     return "\n".join(lines) + "\n"
 
@@ -1170,6 +1170,7 @@ class FnResult:
     obs: list = field(default_factory=list)
     bounded: Optional[dict] = None
     audit: Optional[dict] = None
+    extra: list = field(default_factory=list)  # further bounded entries: (what, bound, count, clean, failures)
     assoc: str = ""
     rebound: list = field(default_factory=list)
     axioms: list = field(default_factory=list)
@@ -1319,6 +1320,8 @@ def _discharge_path(c, law_attr, eq, pairs, n_by_base, val, cond, pname, args, r
     res_atom = c.out_target
     r0 = sp.Symbol("vf_r0", real=True, **{k: True for k in SIGN_KEYS
                                             if getattr(res_atom, "assumptions0", {}).get(k) is True})
+    if c.op == "ceiling":
+        return _discharge_ceiling(c, eq, pairs, n_by_base, val, cond, pname, r0, axioms_all)
     R_raw = law_residual(eq, pairs + [(res_atom, val)], n_by_base)
     Rm_raw = law_residual(eq, pairs + [(res_atom, -val)], n_by_base) if c.op == "abs" else None
     H_raw = law_residual(eq, pairs + [(res_atom, r0)], n_by_base)
@@ -1391,6 +1394,41 @@ def _discharge_path(c, law_attr, eq, pairs, n_by_base, val, cond, pname, args, r
                         f"({ob.verdict} by {ob.backend}); equality to numerical precision is decided by the bounded stand-in")
     ob.detail = (ob.detail + f" | D0: {ob0.verdict}")[:400]
     return ob
+
+
+def _discharge_ceiling(c, eq, pairs, n_by_base, val, cond, pname, r0, axioms_all) -> Ob:
+    """Documented rounded-up integer: the returned expression must be ceiling(E) with E a solution of the law.
+
+    Structural: the returned value is literally a ceiling(..) node; E - S == 0 for all arguments (nf / z3), S being the
+    solution of the law for the result symbol.  Any other shape (int(x) + 1, floor(x) + 1, ...) is not compared
+    symbolically: it is left to the exact integer-grid stand-in."""
+    t0 = time.time()
+    val = reeval(val)
+    if not isinstance(val, sp.ceiling):
+        raise Unsupported(f"documented ceiling: the returned expression is not a ceiling(..) node ({str(val)[:80]})")
+    E = val.args[0]
+    H = law_residual(eq, pairs + [(c.out_target, r0)], n_by_base)
+    try:
+        with time_limit(EXEC_TIMEOUT_S):
+            sols = sp.solve(H, r0)
+    except _Timeout:
+        raise Unsupported("documented ceiling: solve(law, result symbol) timed out")
+    if not sols:
+        raise Unsupported("documented ceiling: the law has no closed-form solution for the result symbol")
+    pc = [reeval(reduce_constants(x)[0]) for x in cond]
+    last = None
+    for S in sols:
+        D = reeval(reduce_constants(E - S)[0])
+        ob, _m, _tr, used = prove_zero(pname, [D], assume=pc, domain_exprs=[reeval(reduce_constants(E)[0])],
+                                       signature=c.qual)
+        _merge(axioms_all, used)
+        if ob.verdict == PROVED:
+            ob.name = pname.replace("/law-holds", "/result-is-ceiling-of-the-law-solution")
+            ob.detail = "returned ceiling(E); E == solution of the law for all arguments" + (";" + ob.detail if ob.detail else "")
+            ob.ms = (time.time() - t0) * 1000
+            return ob
+        last = ob
+    raise Unsupported(f"documented ceiling: argument of ceiling(..) not shown equal to a solution of the law ({last.verdict})")
 
 
 def _merge(dst: list, src):
@@ -1557,23 +1595,56 @@ def _entry(p: Param, v: float, rng):
 
 
 # ===================================================================================== bounded stand-in
-def bounded_function(c: Contract, law_attr, eq, assoc, rng, npoints: int) -> dict:
-    """Call the DECORATED real function at seeded random magnitudes and unit prefixes; check the law residual."""
+def comparison_dependent(c: Contract, eq) -> str:
+    """Does the law or the function body compare quantities?  (Piecewise / relational / Min / Max in the law; an ordering
+    comparison, min(), max() or sorted() in the body.)  Such functions depend on the core comparison hook."""
+    from sympy.core.relational import Relational
+    if eq.has(sp.Piecewise) or eq.atoms(Relational) or eq.has(sp.Min) or eq.has(sp.Max) or eq.has(sp.Heaviside):
+        return "law contains Piecewise / relational / Min / Max"
+    try:
+        import textwrap
+        tree = ast.parse(textwrap.dedent(inspect.getsource(c.undecorated)))
+    except Exception:  # noqa: BLE001
+        return ""
+    for n in ast.walk(tree):
+        if isinstance(n, ast.Compare) and any(isinstance(o, (ast.Lt, ast.LtE, ast.Gt, ast.GtE)) for o in n.ops):
+            return "function body has an ordering comparison"
+        if isinstance(n, ast.Call) and isinstance(n.func, ast.Name) and n.func.id in ("min", "max", "sorted", "Piecewise"):
+            return f"function body calls {n.func.id}()"
+    return ""
+
+
+def bounded_function(c: Contract, law_attr, eq, assoc, rng, npoints: int, wide: bool = False) -> dict:
+    """Call the DECORATED real function at seeded random magnitudes and unit prefixes; check the law residual.
+
+    wide=True: the magnitudes walk the whole prefix range femto .. tera (two points per prefix and round: dimensional
+    arguments within a factor 5 of the prefix scale, once in ascending and once in descending order of the parameters, so
+    that r > sigma and r < sigma both occur at 1e-15); the law is judged on the plain SI numbers (scale factors)."""
     _fill_targets(c, assoc)
     accepted, refused, failures, errors = 0, 0, [], []
     tries = illcond = timeouts = 0
     t_start = time.time()
     seqs = [p for p in c.params if _is_seq_param(p)]
-    while accepted < npoints and tries < npoints * 12:
+    while (accepted < npoints and tries < npoints * 12) if not wide else tries < npoints:
         tries += 1
         entries = {}
         n = rng.randint(1, 4)
+        if wide:
+            expo, pname_ = WIDE_SCALES[((tries - 1) // 2) % len(WIDE_SCALES)]
+            dimensional = [p for p in c.params if not _wants_int(p) and not _is_dimensionless(param_dimension(p))
+                           and _ann_str(p) != "float"]
+            fs = sorted(10 ** rng.uniform(-0.7, 0.7) for _ in dimensional)
+            if tries % 2 == 0:
+                fs.reverse()
+            wide_val = {p.name: f * 10.0 ** expo for p, f in zip(dimensional, fs)}
         for p in c.params:
             def one():
                 v = math.exp(rng.uniform(math.log(0.05), math.log(20)))
                 tgt = p.target
                 if _wants_int(p):
                     v = float(rng.randint(1, 6))
+                if wide and p.name in wide_val and p not in seqs:
+                    return ("q", wide_val[p.name], pname_)
                 return _entry(p, v, rng)
             entries[p.name] = ("list", [one() for _ in range(n)]) if p in seqs else one()
         if time.time() - t_start > FN_BOUNDED_BUDGET_S:
@@ -1626,6 +1697,156 @@ def bounded_function(c: Contract, law_attr, eq, assoc, rng, npoints: int) -> dic
             })
     return {"accepted": accepted, "refused": refused, "failures": failures, "errors": errors, "tries": tries,
             "ill_conditioned": illcond}
+
+
+GRID_VALUES = ["1", "2", "3", "4", "8", "9", "16", "27", "81", "1/2", "1/3"]
+GRID_NEGATIVE = ["-1", "-2", "-1/2"]
+
+
+def _grid_prepare(c: Contract, eq, assoc):
+    """Solve the law ONCE, symbolically, for the result symbol: the independent reference for the grid."""
+    _fill_targets(c, assoc)
+    s = sp.Dummy("sol")
+    par_syms = {p.name: sp.Dummy(p.name) for p in c.params}
+    with time_limit(EXEC_TIMEOUT_S):
+        resid = law_residual(eq, [(p.target, par_syms[p.name]) for p in c.params] + [(assoc["result"], s)], None)
+        sols = sp.solve(resid, s)
+    return sols, par_syms
+
+
+def _grid_judge(c: Contract, assoc, sols, par_syms, entries) -> dict:
+    """Call the real decorated function at one exact grid point and compare with op(solution of the law).
+
+    Expected value: the operation applied to the law's own solution, evaluated with SymPy on the plain numbers the
+    arguments carry (their scale factors), 60 digits; a solution within 1e-40 of an integer IS that integer.  For
+    ceiling the value the published formula gives in float64 is accepted as well (a one-ulp difference of a prefixed
+    argument may sit on the other side of an integer)."""
+    try:
+        with time_limit(POINT_TIMEOUT_S):
+            kwargs = {p.name: _build_arg(p, entries[p.name]) for p in c.params}
+            result = c.decorated(**kwargs)
+            rv = numeric_value(result)
+    except _Timeout:
+        return {"status": "error", "detail": "call timed out"}
+    except Exception as e:  # noqa: BLE001 - the function refuses this point
+        return {"status": "refused", "detail": f"{type(e).__name__}: {str(e)[:80]}"}
+    try:
+        with time_limit(POINT_TIMEOUT_S):
+            pairs, _nb = _numeric_pairs(c, assoc, kwargs, result)
+            exact = {}
+            for p, (_a, v) in zip(c.params, pairs[:-1]):
+                v = sp.sympify(v)
+                exact[par_syms[p.name]] = v if v.is_Rational else sp.Rational(float(v))
+            f64 = {k: sp.Float(float(v)) for k, v in exact.items()}
+            expected, shown = set(), []
+            for so in sols:
+                so = exact_constants(so)
+                v60 = sp.N(so.xreplace(exact), 60)
+                if v60.has(sp.nan) or v60.has(sp.zoo) or v60.has(sp.oo):
+                    continue
+                re_, im_ = v60.as_real_imag()
+                if c.op == "ceiling":
+                    if abs(im_) > sp.Float("1e-40"):
+                        continue
+                    k = sp.floor(re_ + sp.Rational(1, 2))
+                    e_exact = int(k) if abs(re_ - k) < sp.Float("1e-40") else int(sp.ceiling(re_))
+                    expected.add(e_exact)
+                    shown.append(f"solution={sp.N(re_, 20)} -> ceiling {e_exact}")
+                    try:
+                        vf = complex(sp.N(numeric_constants(so).xreplace(f64), 17))
+                        if abs(vf.imag) < 1e-12 and abs(vf.real - float(re_)) < 1e-9 * max(1.0, abs(float(re_))):
+                            expected.add(math.ceil(vf.real))
+                    except Exception:  # noqa: BLE001
+                        pass
+                else:
+                    expected.add(abs(complex(v60)))
+                    shown.append(f"|solution|={abs(complex(v60))!r}")
+    except BaseException as e:  # noqa: BLE001
+        return {"status": "error", "detail": f"expected value not computed: {type(e).__name__}: {str(e)[:100]}"}
+    if not expected:
+        return {"status": "skipped", "detail": "the law has no finite real solution at this point"}
+    if c.op == "ceiling":
+        ok = isinstance(rv, float) and float(rv).is_integer() and int(rv) in expected
+    else:
+        ok = isinstance(rv, float) and rv >= 0 and any(abs(rv - e) <= 1e-9 * max(abs(e), 1e-300) for e in expected)
+    return {"status": "ok" if ok else "fail",
+            "detail": f"returned {rv!r}, expected {c.op}(solution) in {sorted(expected)!r} ({'; '.join(shown)})"}
+
+
+def grid_function(c: Contract, law_attr, eq, assoc, rng, cap: int) -> dict:
+    """Documented abs()/ceiling() functions: exact small-rational arguments in every combination (seeded order, capped at
+    `cap` calls), written with random unit prefixes in exact rational arithmetic, so that exactly integral and negative
+    solutions of the law are hit."""
+    import itertools
+    try:
+        sols, par_syms = _grid_prepare(c, eq, assoc)
+    except BaseException as e:  # noqa: BLE001
+        return {"accepted": 0, "refused": 0, "failures": [], "errors": [f"solve: {type(e).__name__}: {e}"], "tries": 0}
+    if not sols:
+        return {"accepted": 0, "refused": 0, "failures": [], "errors": ["law has no closed-form solution"], "tries": 0}
+    values = {}
+    for p in c.params:
+        vs = list(GRID_VALUES)
+        if c.op == "abs" and not (getattr(p.target, "is_positive", False) or getattr(p.target, "is_nonnegative", False)):
+            vs += GRID_NEGATIVE
+        if _wants_int(p):
+            vs = [v for v in vs if "/" not in v and not v.startswith("-")]
+        values[p.name] = vs
+    names = [p.name for p in c.params]
+    total = 1
+    for nme in names:
+        total *= len(values[nme])
+    if total <= cap:
+        combos = list(itertools.product(*[values[nme] for nme in names]))
+        rng.shuffle(combos)
+    else:
+        seen, combos = set(), []
+        while len(combos) < cap:
+            t = tuple(rng.choice(values[nme]) for nme in names)
+            if t not in seen:
+                seen.add(t)
+                combos.append(t)
+    counts = {"ok": 0, "fail": 0, "refused": 0, "skipped": 0, "error": 0}
+    failures, errors = [], []
+    t_start = time.time()
+    for combo in combos:
+        if time.time() - t_start > FN_BOUNDED_BUDGET_S:
+            errors.append(f"time budget of {FN_BOUNDED_BUDGET_S}s exhausted after {sum(counts.values())} grid points")
+            break
+        entries = {}
+        for p, v in zip(c.params, combo):
+            if _wants_int(p) or _is_dimensionless(param_dimension(p)) or _ann_str(p) == "float":
+                entries[p.name] = ("fx", v)
+            else:
+                entries[p.name] = ("qx", v, rng.choice([x for x, _ in PREFIXES]))
+        r = _grid_judge(c, assoc, sols, par_syms, entries)
+        counts[r["status"]] += 1
+        if r["status"] == "error" and len(errors) < 4:
+            errors.append(r["detail"])
+        if r["status"] == "fail" and len(failures) < 3:
+            failures.append({
+                "name": f"{PID}/{c.qual}/result-is-{c.op}-of-the-law-solution/exact-grid",
+                "detail": f"{r['detail']} at {entries}",
+                "signature": c.qual,
+                "replay": {"reproduced": True, "inputs": {k: str(v) for k, v in entries.items()},
+                           "script": replay_script(c, law_attr, entries, fn="grid_replay")},
+            })
+    return {"accepted": counts["ok"] + counts["fail"], "refused": counts["refused"], "failures": failures, "errors": errors,
+            "tries": sum(counts.values()), "combinations": total, "skipped": counts["skipped"], "failed": counts["fail"]}
+
+
+def grid_replay(modname: str, fname: str, law_attr: str, args: dict, op: str = ""):
+    """Executed by `check --replay` for an exact-grid failure: same judge, this one point, on the real code."""
+    mod = importlib.import_module(modname)
+    c = build_contract(mod, fname)
+    assert not c.reason, f"contract cannot be formed any more: {c.reason}"
+    _n, eq, assoc = [(n, e, a) for n, e, a in c.laws if n == law_attr][0]
+    sols, par_syms = _grid_prepare(c, eq, assoc)
+    print("law:", eq)
+    print("calling", f"{modname}.{fname}", args)
+    r = _grid_judge(c, assoc, sols, par_syms, args)
+    print(r["status"], r["detail"])
+    assert r["status"] != "fail", f"{short(modname)}.{fname}: {r['detail']} at {args}"
 
 
 def _float64(expr):
@@ -1698,6 +1919,8 @@ def _ill_conditioned(eq, pairs, n_by_base) -> bool:
 def process_module(task) -> dict:
     """task = (modname, path, tier, seed, demoted{qual: {class, reason}}, generate: bool)"""
     modname, path, tier, sd, demoted, generate = task
+    if modname == HOOK_TASK:
+        return process_hook()
     t0 = time.time()
     out = {"modname": modname, "path": str(path), "functions": [], "import_error": "", "secs": 0.0}
     try:
@@ -1716,7 +1939,8 @@ def process_module(task) -> dict:
         rng = random.Random(f"{sd}|{qual}")
         fr = FnResult(qual=qual, file=str(path))
         try:
-            _process_function(mod, fname, fr, rng, npoints, demoted, generate, audit_points)
+            _process_function(mod, fname, fr, rng, npoints, demoted, generate, audit_points,
+                              wide_rounds=3 if tier == "thorough" else 1)
         except Exception as e:  # noqa: BLE001
             fr.klass = "fault"
             fr.reason = f"{type(e).__name__}: {e} :: {traceback.format_exc()[-700:]}"
@@ -1726,11 +1950,52 @@ def process_module(task) -> dict:
     return out
 
 
-def _process_function(mod, fname, fr: FnResult, rng, npoints, demoted, generate, audit_points=0):
+GRID_CAP = int(os.environ.get("VERIF_C02_GRID_CAP", "600"))
+
+
+def _process_function(mod, fname, fr: FnResult, rng, npoints, demoted, generate, audit_points=0, wide_rounds=1):
+    c = _process_function_main(mod, fname, fr, rng, npoints, demoted, generate, audit_points)
+    if c is None or not c.laws:
+        return
+    law_attr, eq, assoc = c.laws[0]
+    # ---- documented abs()/ceiling(): exact integer grid against op(solution of the law)
+    if c.op:
+        try:
+            g = grid_function(c, law_attr, eq, assoc, rng, GRID_CAP)
+        except Exception as e:  # noqa: BLE001
+            g = {"accepted": 0, "refused": 0, "failures": [], "errors": [f"{type(e).__name__}: {e}"], "tries": 0}
+        fr.extra.append((f"{fr.qual} [exact grid, documented {c.op}()]",
+                         f"{g['accepted']} judged of {g['tries']} calls ({g.get('combinations', '?')} combinations of "
+                         f"{GRID_VALUES} per argument, cap {GRID_CAP}; {g['refused']} refused, {g.get('skipped', 0)} without a real "
+                         f"solution); result == {c.op}(solution of the law computed with SymPy on the plain numbers, 60 digits, "
+                         f"integers recognised exactly); errors: {g['errors'][:2]}",
+                         g["accepted"], not g["failures"] and g["accepted"] > 0, g["failures"]))
+        if g["accepted"] == 0:
+            fr.extra[-1][4].append({"name": f"{PID}/{c.qual}/result-is-{c.op}-of-the-law-solution/exact-grid",
+                                    "detail": f"no grid point could be judged: {g['errors'][:2]}", "signature": c.qual,
+                                    "replay": {"reproduced": False, "script": None}})
+    # ---- functions that depend on comparisons of quantities: magnitudes across femto .. tera, law on plain SI numbers
+    why = comparison_dependent(c, eq)
+    if why:
+        n = 2 * len(WIDE_SCALES) * wide_rounds
+        try:
+            w = bounded_function(c, law_attr, eq, assoc, rng, n, wide=True)
+        except Exception as e:  # noqa: BLE001
+            w = {"accepted": 0, "refused": 0, "failures": [], "errors": [f"{type(e).__name__}: {e}"], "tries": 0}
+        for f in w["failures"]:
+            f["name"] = f["name"].replace("/bounded", "/wide-magnitudes")
+        fr.extra.append((f"{fr.qual} [comparison-dependent: {why}]",
+                         f"decorated function at {w['tries']} points walking the prefixes femto..tera (arguments within a "
+                         f"factor 5 of each scale, ascending and descending order), {w['accepted']} accepted, {w['refused']} "
+                         f"refused, {w.get('ill_conditioned', 0)} ill-conditioned; law judged on plain SI numbers, residual <= "
+                         f"{REL_TOL:g} relative", w["accepted"], not w["failures"], w["failures"]))
+
+
+def _process_function_main(mod, fname, fr: FnResult, rng, npoints, demoted, generate, audit_points=0):
     c = build_contract(mod, fname)
     if c.reason:
         fr.klass, fr.reason = "out_of_reach", c.reason
-        return
+        return None
     entry = demoted.get(fr.qual)
     hs = set(c.laws[0][2]["hows"].values()) | {c.laws[0][2]["result_how"]}
     fr.assoc = "decorator" if hs == {"decorator"} else "+".join(sorted(hs))
@@ -1802,6 +2067,12 @@ def _process_function(mod, fname, fr: FnResult, rng, npoints, demoted, generate,
             for f in fr.audit["failures"]:
                 f["name"] = f["name"].replace("/bounded", "/audit-of-proved")
         fr.klass = "refuted" if REFUTED in vs else "undecided" if UNKNOWN in vs else "fault" if FAULT in vs else "proved"
+        _seq_reclass(c, fr)
+    return c
+
+
+def _seq_reclass(c, fr):
+    if True:
         if any(_is_seq_param(p) for p in c.params) and fr.klass in ("proved", "refuted"):
             # for-all-values proofs, but only at sequence lengths 1..3: a bounded family, not counted as proved
             fails = [{"name": o.name, "detail": o.detail, "signature": o.signature, "replay": o.replay}
@@ -1812,6 +2083,175 @@ def _process_function(mod, fname, fr: FnResult, rng, npoints, demoted, generate,
                          f"({', '.join(sorted({o.backend for o in fr.obs}))}); other lengths not covered")
             fr.klass = "bounded_length"
             fr.obs = []
+
+
+# ===================================================================================== the core comparison hook
+HOOK_FILE = "core/symbols/quantities.py"
+HOOK_UNIT = "C02/core.symbols.quantities"
+HOOK_TASK = "__core_comparison_hook__"
+
+
+def hook_contract():
+    """Contract, proved from the REAL source (pyvc over the AST of core/symbols/quantities.py):
+         scale_factor(q)      == the scale factor of q   (q a quantity)        and == float(x) for a plain number x
+         _eval_is_ge(qa, qb) <=> a >= b                  for ALL real scale factors a, b
+    returns (obs, note).  A construct the executor does not model (e.g. math.isclose) raises GenError: the function has
+    left the modelled subset, reported in `note`; the executed grid below is then the only judge."""
+    from .pyvc import Obj, TypeRef, GenError, verify_function, discharge
+    from .contracts import frontend as FE
+    a, b = z3.Reals("a b")
+
+    def isinst(ex, ctx, v, clsname):
+        if clsname in ("SymQuantity", "Quantity"):
+            return isinstance(v, Obj) and v.cls == "Quantity"
+        raise GenError(f"isinstance(_, {clsname})")
+
+    def mk(contracts=None):
+        ex = FE.make_exec(HOOK_FILE, HOOK_UNIT, globals_extra={"SymQuantity": TypeRef("SymQuantity")},
+                          contracts=contracts or {}, isinstance_model=isinst)
+        return ex
+
+    obs, notes = [], []
+    try:
+        for kind in ("quantity", "number"):
+            ex = mk()
+            arg = Obj("Quantity", {"scale_factor": a}) if kind == "quantity" else a
+
+            def setup(ex, ctx, arg=arg):
+                return [arg], {}, None
+
+            def post(ex, ctx, out, info):
+                if out[0] != "return":
+                    yield f"never-raises-on-a-{kind}", z3.BoolVal(False)
+                else:
+                    yield f"returns-the-scale-factor-of-a-{kind}", ex.znum(out[1]) == a
+
+            verify_function(ex, "scale_factor", setup, post)
+            obs += discharge(ex, HOOK_UNIT)
+
+        def sf_contract(ex, ctx, args, kw):
+            q = args[0]
+            if not (isinstance(q, Obj) and q.cls == "Quantity"):
+                raise GenError("scale_factor contract: argument is not a quantity")
+            return [(ctx, q.fields["scale_factor"])]
+
+        ex = mk({"scale_factor": sf_contract})
+        ex.globals["scale_factor"] = ("__contract__", "scale_factor")
+        qa, qb = Obj("Quantity", {"scale_factor": a}), Obj("Quantity", {"scale_factor": b})
+
+        def setup2(ex, ctx):
+            return [qa, qb], {}, None
+
+        def post2(ex, ctx, out, info):
+            if out[0] != "return":
+                yield "never-raises", z3.BoolVal(False)
+            else:
+                yield "result<=>lhs-scale-factor>=rhs-scale-factor", ex.zbool(ex.truth(out[1])) == (a >= b)
+
+        def conc(m, name):
+            def val(t):
+                v = m.eval(t, model_completion=True)
+                return float(Fraction(str(v.as_fraction()))) if z3.is_rational_value(v) else float(str(v.approx(17)).rstrip("?"))
+            return _hook_try(val(a), val(b))
+
+        verify_function(ex, "_eval_is_ge", setup2, post2, concretize=conc)
+        obs += discharge(ex, HOOK_UNIT)
+    except GenError as e:
+        notes.append(f"{type(e).__name__}: {e}")
+    except Exception as e:  # noqa: BLE001
+        notes.append(f"front end failed: {type(e).__name__}: {e}")
+    for o in obs:
+        o.signature = o.signature or "core.symbols.quantities._eval_is_ge"
+    return obs, "; ".join(notes)
+
+
+HOOK_SCRIPT = """# replay: the core comparison hook of symplyphysics on two real Quantities versus the float comparison
+import os, sys
+sys.path.insert(0, os.environ.get('VERIF_REPO', '/repo'))
+from sympy import Piecewise
+from symplyphysics import Quantity, units
+a, b = {a!r}, {b!r}
+qa, qb = Quantity(a * units.{unit}), Quantity(b * units.{unit})
+sa, sb = float(qa.scale_factor), float(qb.scale_factor)
+got = {{'>=': bool(qa >= qb), '<': bool(qa < qb), '<=': bool(qa <= qb), '>': bool(qa > qb),
+       'Piecewise(<=)': int(Piecewise((1, qa <= qb), (0, True))), 'Piecewise(>)': int(Piecewise((1, qa > qb), (0, True)))}}
+want = {{'>=': sa >= sb, '<': sa < sb, '<=': sa <= sb, '>': sa > sb, 'Piecewise(<=)': int(sa <= sb), 'Piecewise(>)': int(sa > sb)}}
+print('scale factors', sa, sb)
+print('hook  ', got)
+print('floats', want)
+assert got == want, ('quantity comparison disagrees with the comparison of the scale factors', sa, sb, got, want)
+"""
+
+
+def _hook_compare(a: float, b: float, unit: str = "meter"):
+    """(got, want, sa, sb) on the real code."""
+    from symplyphysics import Quantity, units
+    u = getattr(units, unit)
+    qa, qb = Quantity(a * u), Quantity(b * u)
+    sa, sb = float(qa.scale_factor), float(qb.scale_factor)
+    got = (bool(qa >= qb), bool(qa < qb), bool(qa <= qb), bool(qa > qb),
+           int(sp.Piecewise((1, qa <= qb), (0, True))), int(sp.Piecewise((1, qa > qb), (0, True))))
+    want = (sa >= sb, sa < sb, sa <= sb, sa > sb, int(sa <= sb), int(sa > sb))
+    return got, want, sa, sb
+
+
+def _hook_try(a: float, b: float, unit: str = "meter") -> dict:
+    try:
+        got, want, sa, sb = _hook_compare(a, b, unit)
+    except Exception as e:  # noqa: BLE001
+        return {"reproduced": False, "script": None, "message": f"{type(e).__name__}: {e}"}
+    return {"reproduced": got != want, "script": HOOK_SCRIPT.format(a=a, b=b, unit=unit), "inputs": {"a": a, "b": b},
+            "message": f"got {got} want {want}"}
+
+
+def hook_grid_pairs():
+    """Scale-factor pairs: magnitudes 1e-15 .. 1e15, equal pairs, pairs differing by 1e-13 / 1e-12 / 1e-9 relative and
+    absolute, neighbouring magnitudes (300 fm vs 0.1 pm), zero, all sign combinations."""
+    mags = [10.0 ** k for k in range(-15, 16, 3)] + [3e-13, 1e-13, 2.5e-7, 7.0]
+    pairs = []
+    for m in mags:
+        others = [m, m * 3, m / 3, m * 1000, m / 1000]
+        for d in (1e-13, 1e-12, 1e-9):
+            others += [m * (1 + d), m * (1 - d), m + d, m - d]
+        for o in others:
+            for sa_ in (1, -1):
+                for sb_ in (1, -1):
+                    pairs.append((sa_ * m, sb_ * o))
+        pairs += [(m, 0.0), (0.0, m), (-m, 0.0), (0.0, -m)]
+    pairs.append((0.0, 0.0))
+    return list(dict.fromkeys(pairs))
+
+
+def hook_grid() -> dict:
+    """Executed check, always run: the real hook (through >=, <, <=, >, and a Piecewise on them) against the floats."""
+    pairs = hook_grid_pairs()
+    failures, errors, n = [], [], 0
+    for unit in ("meter", "second"):
+        for a, b in pairs if unit == "meter" else pairs[::7]:
+            try:
+                got, want, sa, sb = _hook_compare(a, b, unit)
+            except Exception as e:  # noqa: BLE001
+                if len(errors) < 3:
+                    errors.append(f"{type(e).__name__}: {str(e)[:100]} at {(a, b)}")
+                continue
+            n += 1
+            if got != want and len(failures) < 3:
+                failures.append({
+                    "name": f"{HOOK_UNIT}/_eval_is_ge/agrees-with-the-comparison-of-scale-factors/executed-grid",
+                    "detail": f"a={sa!r} b={sb!r}: (>=, <, <=, >, Piecewise<=, Piecewise>) = {got}, floats give {want}",
+                    "signature": "core.symbols.quantities._eval_is_ge",
+                    "replay": {"reproduced": True, "inputs": {"a": a, "b": b},
+                               "script": HOOK_SCRIPT.format(a=a, b=b, unit=unit)},
+                })
+    return {"count": n, "failures": failures, "errors": errors, "pairs": len(pairs)}
+
+
+def process_hook() -> dict:
+    t0 = time.time()
+    obs, note = hook_contract()
+    grid = hook_grid()
+    return {"modname": HOOK_TASK, "path": "", "functions": [], "import_error": "", "hook": {"obs": obs, "note": note, "grid": grid},
+            "secs": time.time() - t0}
 
 
 # ===================================================================================== crash-isolating pool
